@@ -37,7 +37,8 @@ const OUTSCOPE: &[u8] = &[
 ];
 
 fn small_or_weird(rng: &mut Rng) -> [u8; 32] {
-    match rng.below(10) {
+    match rng.below(12) {
+        10 | 11 => word_u(*rng.pick(&[0u64, 1, 2, 7, 8, 30, 31, 32, 33, 63, 64, 255, 256, 257])),
         0..=4 => word_u(rng.below(130)),
         5 => word_u(rng.below(1 << 17)),
         6 => word_u((1u64 << 32) - 1 - rng.below(40)),
@@ -192,7 +193,9 @@ pub fn gen_target(rng: &mut Rng) -> Vec<u8> {
                 c.extend([0x5f, 0x5f, 0x5f, 0x5f]);
                 c.extend(push_u(*rng.pick(&[1u64, 1, 1, 0])));
                 c.extend(push_u(*rng.pick(&[1u64, 100, 101, 0xffff])));
-                c.extend([0x5a, 0xf1, 0x50]);
+                // the gas operand is pushed, not taken from GAS: the frame must stay inside the specified
+                // instruction set up to the CALL for the specification to follow it
+                c.extend([0x61, 0xff, 0xff, 0xf1, 0x50]);
             }
             14 => {
                 // read back what may have been written and return it
